@@ -88,6 +88,13 @@ def eval_isurl(case):
                 host = urlref.split(full)["host"] or ""
             except Exception:
                 host = ""
+            try:
+                from urllib.parse import urlsplit as _us
+                std = _us(full).hostname or ""
+            except ValueError:
+                std = None
+            if std is None or std.lower() != host.lower().strip("[]"):
+                continue   # bracket / '@' soup on which the reference splitter and urlsplit see different hosts: no host to state the rule on
             h = host.lower().rstrip(".")
             last = h.rsplit(".", 1)[-1]
             if last.startswith("xn--"):
